@@ -110,7 +110,8 @@ func C02(o *core.Options) int {
 		stride = 1
 	}
 	for i, m := range reps {
-		if i%stride == int(o.Seed)%stride {
+		// the twin-branch classes and every 3rd mixed-parent TTU class are always in
+		if i%stride == int(o.Seed)%stride || m.IsTwin() || (strings.Contains(m.Signature(), "|r1=") && i%3 == 0) {
 			models = append(models, m)
 		}
 	}
@@ -277,6 +278,7 @@ func C02(o *core.Options) int {
 		}
 	})
 	c02ListObjects(o, r, models)
+	c02Reducers(o, r)
 	return r.Finish()
 }
 
